@@ -5,6 +5,8 @@ from vgen.gen import A
 HAS_LOOP_CONTRACTS = True
 
 SPECS = r'''
+#[verifier::external_body] pub fn map_get<'a>(m: &'a HashMap<String, CelValue>, k: &str) -> (r: Option<&'a CelValue>)
+    ensures (r is Some) == (map_lookup(m@, k@) is Some), r is Some ==> *r->Some_0 == map_lookup(m@, k@)->Some_0 { m.get(k) }
 pub open spec fn top<'b>(st: Seq<CelStackValue<'b>>, k: int) -> CelStackValue<'b> { st[st.len() - 1 - k] }
 
 /// a binary instruction pops the right operand (top) and then the left operand, resolves both, and pushes op(left, right)
@@ -101,6 +103,7 @@ GROUPS = {
     4: ['ByteCode::Gt', 'ByteCode::In', 'ByteCode::Index'],
     5: ['ByteCode::MkList(size)', 'ByteCode::FmtString(nsegments)'],
     6: ['ByteCode::MkDict(size)'],
+    7: ['Some(val)', 'Ok(callable)'],
 }
 
 
@@ -111,6 +114,12 @@ def vm_contracts(group=0):
     d = _vm_contracts()
     a = d['run_raw']
     a.arm_end = {k: v for k, v in a.arm_end.items() if k in GROUPS[group]}
+    if group == 7:
+        a.before = {
+            'stack.push_val(self.call_macro(&CelValue::from_null()': [('a_bound_function_wins_over_a_macro', 'self@.has_bindings && func_of(self@.bind, func_name@) is None && macro_of(self@.bind, func_name@) == Some(macro_)', ('C12', 'C01'))],
+            'stack.push_val(construct_type(type_name, arg_values));': [('functions_and_macros_win_over_type_constructors', 'func_of(self@.bind, func_name@) is None && macro_of(self@.bind, func_name@) is None', ('C12', 'C01'))],
+            'stack.push_val(func(CelValue::from_null(), arg_values));': [('the_bound_function_is_called', 'self@.has_bindings && func_of(self@.bind, func_name@) == Some(func)', ('C12', 'C01'))],
+        }
     if group == 6:
         a.loops[2] = dict(ghost='it2', invariant=[('stack_context', 'stack.ctx == self'),
             ('pairs_popped_so_far', 'gkeys.len() == it2.index@ && dict_popped(self@, st0, gkeys, gvals)'),
@@ -164,7 +173,8 @@ proof { gkeys = gkeys.push(key); gvals = gvals.push(value); }'''}
 def _vm_contracts():
     return {
         'run_raw': A(ret='r', attrs=['#[verifier::exec_allows_no_decreases_clause]'],
-                     rewrites=[('func(value, arg_values)', 'func.call(value, arg_values)', 'R1: call through &dyn Fn -> trampoline'),
+                     rewrites=[('map.get(ident.as_str())', 'map_get(map, ident.as_str())', 'R2: HashMap::get through Borrow<str> has no vstd spec -> trampoline with the assumed std behaviour'),
+                               ('func(value, arg_values)', 'func.call(value, arg_values)', 'R1: call through &dyn Fn -> trampoline'),
                                ('func(CelValue::from_null(), arg_values)', 'func.call(CelValue::from_null(), arg_values)', 'R1: call through &dyn Fn -> trampoline')],
                      ensures=[('too_deep_is_an_error', 'self@.depth >= 128 ==> r is Err', ('C12', 'C01'))],
                      loops={0: dict(invariant=[('pc_in_program', 'pc <= prog@.len()'), ('stack_context', 'stack.ctx == self')], pre='let ghost st0 = stack.stack@;')}
@@ -200,6 +210,10 @@ def _vm_contracts():
     }
 }
 ''', ('n_topmost_values_in_push_order', 'mklist_arm(self@, st0, stack.stack@, *size, popped_v.reverse())', ('C06', 'C01'))],
+            'Some(val)': [('a_map_field_wins_over_a_method_of_the_same_name',
+                           'st0.len() >= 2 && obj is Map && map_lookup(obj->Map_0@, ident@) == Some(*val) && stack.stack@ == st0.drop_last().drop_last().push(CelStackValue::Value(*val))', ('C12', 'C06', 'C09', 'C01'))],
+            'Ok(callable)': [('a_method_is_bound_only_when_no_field_has_that_name',
+                              'st0.len() >= 2 && obj is Map && map_lookup(obj->Map_0@, ident@) is None && self@.has_bindings', ('C12', 'C06', 'C09', 'C01'))],
             'ByteCode::MkDict(size)': [('last_entry_wins_for_a_repeated_key', 'mkdict_arm(self@, st0, stack.stack@, *size, gkeys, gvals)', ('C06', 'C09', 'C01'))],
             'ByteCode::FmtString(nsegments)': [('concatenation_in_push_order', 'fmt_arm(self@, st0, stack.stack@, *nsegments, segs0)', ('C14', 'C01'))],
             'ByteCode::Jmp(dist)': [('relative_jump', 'pc == oldpc + 1 + *dist && stack.stack@ == st0', ('C10', 'C05', 'C01'))],
